@@ -627,9 +627,20 @@ def provably_eq(a, b, rels):
 # "written in every iteration": must-pass along the inlining chain of a write effect
 # ----------------------------------------------------------------------------------------------
 def success_returns(body):
-    """blocks that assign a success value (Ok/Some) to the return place; all exits if the function
-    does not return a Result/Option built in place"""
-    oks = [bi for bi, si, s in body.stmts() if s["k"] == "assign" and s["place"]["l"] == 0 and not s["place"]["proj"]
+    """blocks that build a success value (Ok/Some) for the return place — directly, or into a local that is moved into
+    it (the spliced-in `_0` of an inlined callee, a `let result = Ok(..); result`); all exits if the function does not
+    return a Result/Option built in place"""
+    flows = {0}
+    changed = True
+    while changed:
+        changed = False
+        for bi, si, s in body.stmts():
+            if s["k"] == "assign" and not s["place"]["proj"] and s["place"]["l"] in flows and s["rv"]["k"] == "use":
+                o = s["rv"]["op"]
+                if o["k"] in ("copy", "move") and not o["place"]["proj"] and o["place"]["l"] not in flows:
+                    flows.add(o["place"]["l"])
+                    changed = True
+    oks = [bi for bi, si, s in body.stmts() if s["k"] == "assign" and s["place"]["l"] in flows and not s["place"]["proj"]
            and s["rv"]["k"] == "agg" and s["rv"].get("variant") in ("Ok", "Some", "Continue")]
     return oks or body.exits()
 
